@@ -49,7 +49,13 @@ def main():
         result["demo_without_change"] = {"rc": rc0, "tail": out0[-600:]}
         sh("git clean -fdq", wt)
         # apply
-        rc, out = sh(f"git apply {src}/patch.diff", wt)
+        # a patch that was rebased onto a later /repo HEAD lives in /verif/seeded/<id>/patch.diff
+        patch = f"{src}/patch.diff"
+        rebased = f"/verif/seeded/{prop}-{n}/patch.diff"
+        if os.path.exists(rebased) and sh(f"git apply --check {patch}", wt)[0] != 0:
+            patch = rebased
+            result["patch_used"] = rebased
+        rc, out = sh(f"git apply {patch}", wt)
         result["patch_applies"] = rc == 0
         if rc != 0:
             result["apply_output"] = out[-500:]
@@ -90,6 +96,8 @@ def main():
         dst = f"/verif/seeded/{prop}-{n}"
         os.makedirs(dst, exist_ok=True)
         for f in os.listdir(src):
+            if f == "patch.diff" and result.get("patch_used"):
+                continue  # keep the rebased patch
             if f in ("patch.diff", "meta.json") or f.startswith("demo"):
                 if os.path.isdir(f"{src}/{f}"):
                     shutil.copytree(f"{src}/{f}", f"{dst}/{f}", dirs_exist_ok=True)
